@@ -348,6 +348,13 @@ def run_scenario(sc, d, oracle_cls=None, pauses=None, monitor=None, budget=None,
                 res.df, res.tasks = sim.monitor.df, sim._generate_final_task_data()
             else:
                 res.df, res.tasks = sim.start()
+                if f.get('overrun'):
+                    # keep the clock running after completion: the table still gets one row per timestep
+                    res.T_done = env.now
+                    env.budget = env.now + f['overrun'] + 1
+                    sim.resume(env.now + f['overrun'])
+                    sim.monitor.collate_events()
+                    res.df = sim.monitor.df
             res.status = 'ok'
         except BudgetExceeded:
             res.status = 'budget'
